@@ -6,9 +6,8 @@
 (* separately so the written-out formulas can be model-checked against     *)
 (* them.                                                                   *)
 (***************************************************************************)
-EXTENDS Exact
+EXTENDS Exact, FiniteSetsExt
 
-Range(s) == {s[i] : i \in DOMAIN s}
 
 Zero(n)   == [i \in 1..n |-> 0]
 IsZeroV(v) == \A i \in DOMAIN v : v[i] = 0
@@ -49,6 +48,12 @@ Primitive(v) ==
 \* u and v are scalar multiples of each other (both non-zero is NOT required: zero ~ anything)
 Proportional(u, v) == \A i, j \in DOMAIN u : u[i] * v[j] = u[j] * v[i]
 SameClass(u, v) == ~IsZeroV(u) /\ ~IsZeroV(v) /\ Proportional(u, v)
+
+\* The lattice: all vectors of length n with entries in -K..K
+Lattice(n, K) == [1..n -> (-K)..K]
+NonZero(S) == {v \in S : ~IsZeroV(v)}
+\* one representative per projective class
+Classes(n, K) == {v \in NonZero(Lattice(n, K)) : v = Primitive(v)}
 
 ---------------------------------------------------------------------------
 \* Matrices
@@ -105,11 +110,7 @@ Eps(idx) == IF IsPerm(idx) THEN PermSign(idx) ELSE 0
 
 RECURSIVE ProdFrom(_, _, _)
 ProdFrom(M, p, i) == IF i > Len(M) THEN 1 ELSE M[i][p[i]] * ProdFrom(M, p, i + 1)
-RECURSIVE SumSet(_, _, _)
-SumSet(S, M, acc) == IF S = {} THEN acc
-                     ELSE LET p == CHOOSE q \in S : TRUE
-                          IN SumSet(S \ {p}, M, acc + PermSign(p) * ProdFrom(M, p, 1))
-DetLeibniz(M) == SumSet(PermsOf(Len(M)), M, 0)
+DetLeibniz(M) == FoldSet(LAMBDA p, acc : acc + PermSign(p) * ProdFrom(M, p, 1), 0, PermsOf(Len(M)))
 
 ---------------------------------------------------------------------------
 \* rank of a small matrix (rows) via minors: 0..3 for what the specs need
